@@ -142,9 +142,15 @@ func c34GenResp(r *vu.Rng) string {
 		cl = total
 	case 3:
 		cl = total + r.Range(1, 600) // handler writes less than declared
+		if r.Bool() {
+			cl = total + 1
+		}
 	case 4:
 		if total > 0 {
 			cl = r.Intn(total) // handler writes more than declared (trimmed)
+			if r.Bool() {
+				cl = total - 1
+			}
 		}
 	}
 	trmode, tr := "-", "-"
@@ -192,9 +198,15 @@ func c34GenCL(r *vu.Rng, total int) string {
 	case 2, 3:
 		return fmt.Sprint(total)
 	case 4:
+		if r.Bool() {
+			return fmt.Sprint(total + 1) // off by one: declared one more than sent
+		}
 		return fmt.Sprint(total + r.Range(1, 300))
 	case 5:
 		if total > 0 {
+			if r.Bool() {
+				return fmt.Sprint(total - 1) // off by one: declared one less than sent
+			}
 			return fmt.Sprint(r.Intn(total))
 		}
 		return "0"
@@ -229,11 +241,17 @@ func c34Gen(r *vu.Rng, i int) []string {
 		case 4:
 			if nobody == 0 {
 				cl = total + r.Range(1, 300)
+				if r.Bool() {
+					cl = total + 1
+				}
 				mismatch = true
 			}
 		case 5:
 			if total > 1 {
 				cl = r.Range(1, total-1)
+				if r.Bool() {
+					cl = total - 1
+				}
 				mismatch = true
 			}
 		}
